@@ -344,7 +344,7 @@ func (e *mvEnv) judge(label string, m *nom.Momentum, blocks []*nom.AccountBlock)
 		if err != nil || *exp != producer {
 			c.Fail("mverify: accepted momentum signed by %v, a cold consensus instance elects %v (err %v) for its slot; %s", producer, exp, err, what)
 		}
-		if label != "valid" && label != "valid-next-slot" && label != "valid-skip" && label != "fork-sibling" {
+		if label != "valid" && label != "valid-next-slot" && label != "valid-skip" && label != "fork-sibling" && label != "replay-frontier" {
 			c.Fail("mverify: a mutated momentum was accepted; %s", what)
 		}
 	} else if label == "valid" || label == "valid-next-slot" {
@@ -709,8 +709,20 @@ func init() {
 			if err != nil {
 				panic(err)
 			}
-			K := keyOf(f.Producer())
-			tx, err := e.build(parent, int64(f.TimestampUnix), nil, K)
+			// (a) the frontier momentum itself presented again (a replay): same parent, slot, content and signer
+			if rtx, err := e.build(parent, int64(f.TimestampUnix), nil, keyOf(f.Producer())); err == nil {
+				if rtx.Momentum.Hash == f.Hash {
+					c.Hit("replay-is-identical-to-frontier")
+				}
+				e.judge("replay-frontier", cloneMomentum(rtx.Momentum), nil)
+			}
+			// (b) a different momentum on the same parent: the slot after the frontier's, signed by its elected pillar
+			tsec := int64(f.TimestampUnix) + e.cctx.BlockTime
+			exp, err := e.z.Consensus().GetMomentumProducer(time.Unix(tsec, 0))
+			if err != nil {
+				panic(err)
+			}
+			tx, err := e.build(parent, tsec, nil, keyOf(*exp))
 			if err != nil {
 				c.Hit("fork-sibling-not-buildable")
 				return
